@@ -1,12 +1,30 @@
 #!/bin/sh
 cd "$(dirname "$(readlink -f "$0")")"
-S() { SAVE=$1 NEEDS="$4" ./seedcheck.sh $2 $3 2>&1 | head -1 | cut -c1-200; }
-S C12-1 C12 /tmp/mut-C12-out/1 "server reuses one response buffer across requests: overlapping requests corrupt each other's responses||overlapping requests for different files (diff with both bases remote, or parallel clients)"
-S C12-2 C12 /tmp/mut-C12-out/2 "/sum handler takes the clock from until: remote sum differs from local||explicit -until earlier than now with a window touching an archive's retention boundary"
-S C12-3 C12 /tmp/mut-C12-out/3 "remote glob list parsed with strings.Fields: names containing whitespace are split||a matched file or item name containing a space"
-S C15-1 C15 /tmp/mut-C15-out/1 "ExpectedFileSize computed in 32 bits: a short file claiming 0x15555556 points is accepted by Open and a raw dump allocates gigabytes||points count whose product with 12 wraps 32 bits"
-S C15-2 C15 /tmp/mut-C15-out/2 "Points.TakeFrom bound replaced by int(count) < 0: count*12 wraps 64 bits and makeslice panics in the view-raw client||hostile response with a 64-bit count of 2^63/12 or more"
-S C15-3 C15 /tmp/mut-C15-out/3 "aggregation method validation accepts Mix and Percentile: first propagating update panics||aggregation byte damaged from 3 to 7 (one flipped bit) in a file with two or more archives"
-S C17-1 C17 /tmp/mut-C17-out/1 "reusable per-archive read buffer stored on the handle: concurrent fetches overwrite each other's bytes||two concurrent fetches of the same archive with different windows on one handle"
-S C17-2 C17 /tmp/mut-C17-out/2 "sum workers append results in completion order (under a mutex): header, float sum order and messages depend on the schedule||three or more files with non-integer values, or differing metadata"
-S C17-3 C17 /tmp/mut-C17-out/3 "response buffer returned to a sync.Pool while the handler is still writing it||overlapping requests, a slow or large response"
+S() { SAVE=$1 NEEDS="$4" TARGET=$5 ./seedcheck.sh $2 $3 2>&1 | head -1 | cut -c1-200; }
+S C01-r2-1 C03 /tmp/mut2-C01-out/1 "single update exactly one max-retention old is accepted and wipes the newest live value of the last archive (it shares its slot)||single update with age == max retention; acceptance is C03's rule, so the C03 check reports it" C01
+S C01-r2-2 C03 /tmp/mut2-C01-out/2 "named-archive batch spills its too-old points into the coarser archives||a stale point in a named-archive batch, then a read of the coarser archive (routing is C03's rule, so the C03 check reports it)" C01
+S C01-r2-3 C01 /tmp/mut2-C01-out/3 "batch writes skip NaN-valued points: the older value of the slot survives a later NaN write||value, then NaN for the same interval, then fetch"
+S C02-r2-1 C02 /tmp/mut2-C02-out/1 "propagate takes the coarsest archive as the next level: with 4+ levels the third level is never recomputed||layout with four archives"
+S C02-r2-2 C02 /tmp/mut2-C02-out/2 "re-sending an identical sample returns before propagateChain: coarser slots changed in between are not recomputed||three-step history (sample, direct coarser write, same sample again)"
+S C02-r2-3 C02 /tmp/mut2-C02-out/3 "timesToPropagate returns every interval between the first and last point: gap slots covering no written point are recomputed||sparse batch with a gap of one whole coarse slot"
+S C03-r2-1 C03 /tmp/mut2-C03-out/1 "named-archive batch no longer sorted before the suffix partition: in-range points supplied before a stale one are lost||unsorted named-archive batch containing one too-old point"
+S C03-r2-2 C03 /tmp/mut2-C03-out/2 "single-update acceptance off by one (age == max retention accepted)||single update with age exactly the max retention"
+S C03-r2-3 C03 /tmp/mut2-C03-out/3 "early exit tests the oldest point: one too-old point makes the whole batch vanish||batch containing one point at or beyond the max retention"
+S C04-r2-1 C04 /tmp/mut2-C04-out/1 "future short-circuit from >= now: a window starting exactly at now returns no series||from == now"
+S C04-r2-2 C04 /tmp/mut2-C04-out/2 "lower bound clamped after alignment: one extra slot when the retention edge is slot-aligned and from lies within one step before it||clock a multiple of the step, from just before the retention edge"
+S C04-r2-3 C04 /tmp/mut2-C04-out/3 "negative archive ids below -1 treated as best||archive id -2 or -3"
+S C05-r2-1 C05 /tmp/mut2-C05-out/1 "finalizer flushes dropped handles: unsynced pages reach the disk when the collector runs||handle abandoned without Close, then a GC cycle"
+S C05-r2-2 C05 /tmp/mut2-C05-out/2 "modified flag set only on success: Sync skips the flush after an update that failed half-way||update that writes archive 0 and then fails while propagating (damaged coarser base interval), then Sync"
+S C05-r2-3 C13 /tmp/mut2-C05-out/3 "Open reads the header page before taking the lock: a reader keeps a stale page 0||reader whose Open starts while a writer holds unsynced changes in page 0, multi-page file (a two-handle interleaving: the C13 check reports it, the C05 check has no overlapping observer)" C05
+S C06-r2-1 C06 /tmp/mut2-C06-out/1 "validateAggregationMethod as a range check excludes first (id 6)||aggregation method first"
+S C06-r2-2 C06 /tmp/mut2-C06-out/2 "archiveUpdateMany skips points that left the retention after the empty-archive bootstrap: slot 0 stays empty, later base has another phase||first batch into an empty archive whose oldest point is less than one step inside the retention edge"
+S C06-r2-3 C13 /tmp/mut2-C06-out/3 "every open takes LOCK_SH (os.O_RDONLY == 0): a second writer's stale page 0 wipes the first writer's slots||two overlapping writer sessions (serialisation is C13's rule: the C13 check reports it)" C06
+S C08-r2-1 C08 /tmp/mut2-C08-out/1 "copyPointsList returns only the last round's diff: the final Sync is skipped when the coarsest archive has nothing to write||catch-up copy into a stale replica whose coarser archives agree, or -archive k below the last"
+S C08-r2-2 C08 /tmp/mut2-C08-out/2 "layout check compares the source with the requested layout instead of the existing destination's||existing destination with equal steps but different point counts and a window inside both retentions"
+S C08-r2-3 C08 /tmp/mut2-C08-out/3 "Value.Equal with a 1e-12 relative tolerance: slots differing in the last bits are not copied||destination value differing from the source in the last bits"
+S C09-r2-1 C09 /tmp/mut2-C09-out/1 "text-out file not flushed when the command returns an error: the listing is lost exactly when a difference is found||-text-out file and a difference"
+S C09-r2-2 C09 /tmp/mut2-C09-out/2 "Value.Equal compares bit patterns: NaN payloads and signed zeros count as differences||stored NaN with another payload, or +0 against -0"
+S C09-r2-3 C09 /tmp/mut2-C09-out/3 "ArchiveInfo.Equal drops the point count: layouts differing only in an archive's length compare equal||explicit window inside both retentions"
+S C10-r2-1 C10 /tmp/mut2-C10-out/1 "never-written early return before the zero-length adjustment: sum fails with time ranges unalike||a never-written file among the sources and a window inside one step"
+S C10-r2-2 C10 /tmp/mut2-C10-out/2 "pattern matching nothing reported with a wrapped error that os.IsNotExist does not recognise||file pattern matching nothing"
+S C10-r2-3 C10 /tmp/mut2-C10-out/3 "/sum handler reads now from the until field||remote sum with an explicit until different from now and a window touching the retention edge"
